@@ -115,6 +115,19 @@ Proof.
   apply (slots_vec junk KBoth (i_dom I) ran ro sc F); [intros _; assumption | intros _; assumption | discriminate].
 Qed.
 
+Lemma cls_vec_ok_ip (c : cls) (I : @inst VR) ran ro F :
+  c_kind c = KIp -> i_ran I = RSp ran ->
+  raw_ip_vec (fun x o => exec_body junk I (c_ip c) x (Some o)) (i_dom I) ran ro [] F ->
+  vec_ok (cls_sem junk c I) ran ro [] F.
+Proof.
+  intros Hk Hr Hi. unfold cls_sem. rewrite Hk, Hr.
+  apply (slots_vec junk KIp (i_dom I) ran ro [] F (fun x => exec_body junk I (c_oop c) x None)
+           (fun x o => exec_body junk I (c_ip c) x (Some o)));
+    [intros [Q|Q]; discriminate | intros _; assumption | reflexivity].
+Qed.
+
+Notation qr c := (@of_Q R _ c).
+
 (* [den ro o dom ran c F]: o is a well-formed operator tree dom -> ran (the constructors
    repeat the checks of the __init__ methods), F is the function it denotes, c lists
    the user-supplied temporaries (tmp=, tmp_ran=) of the tree with their spaces: they
@@ -135,6 +148,36 @@ Inductive den (ro : ro_t) : opR -> space -> space -> scr_t -> (list R -> list R)
     den ro (Op cls_ConstantOperator dom (RSp ran) [] [v] [] []) dom ran [] (fun _ => dv)
 | D_Multiply sp v dv : In (v, sp, dv) ro ->
     den ro (Op cls_MultiplyOperator sp (RSp sp) [] [v] [] []) sp sp [] (fun d => rmul dv d)
+(* proximal factories of odl/solvers/nonsmooth/proximal_operators.py (scalar sigma, lam) *)
+| D_ProxL2Sq sp sig lam : (qr (1 # 1) + qr (2 # 1) * sig * lam <> 0)%R ->
+    den ro (Op cls_ProximalL2Squared sp (RSp sp) [Some sig; Some lam] [] [] []) sp sp []
+        (fun d => rscal (qr (1 # 1) / (qr (1 # 1) + qr (2 # 1) * sig * lam)) d)
+| D_ProxL2Sq_g sp sig lam v dv : (qr (1 # 1) + qr (2 # 1) * sig * lam <> 0)%R -> In (v, sp, dv) ro ->
+    den ro (Op cls_ProximalL2Squared_g sp (RSp sp) [Some sig; Some lam] [v] [] []) sp sp []
+        (fun d => rlin (qr (1 # 1) / (qr (1 # 1) + qr (2 # 1) * sig * lam))
+                       (qr (2 # 1) * sig * lam / (qr (1 # 1) + qr (2 # 1) * sig * lam)) d dv)
+| D_ProxCCL2Sq sp sig lam : lam <> 0%R -> (qr (1 # 1) + qr (1 # 2) * sig / lam <> 0)%R ->
+    den ro (Op cls_ProximalConvexConjL2Squared sp (RSp sp) [Some sig; Some lam] [] [] []) sp sp []
+        (fun d => rscal (qr (1 # 1) / (qr (1 # 1) + qr (1 # 2) * sig / lam)) d)
+| D_ProxCCL2Sq_g sp sig lam v dv : lam <> 0%R -> (qr (1 # 1) + qr (1 # 2) * sig / lam <> 0)%R -> In (v, sp, dv) ro ->
+    den ro (Op cls_ProximalConvexConjL2Squared_g sp (RSp sp) [Some sig; Some lam] [v] [] []) sp sp []
+        (fun d => rlin (qr (1 # 1) / (qr (1 # 1) + qr (1 # 2) * sig / lam))
+                       (- sig / (qr (1 # 1) + qr (1 # 2) * sig / lam)) d dv)
+| D_ProxL1 sp sig lam : (sig * lam <> 0)%R ->
+    den ro (Op cls_ProximalL1 sp (RSp sp) [Some sig; Some lam] [] [] []) sp sp []
+        (fun d => rlin (qr (1 # 1)) (qr ((-1) # 1)) d (soft (sig * lam) d))
+| D_ProxL1_g sp sig lam v dv : (sig * lam <> 0)%R -> In (v, sp, dv) ro ->
+    den ro (Op cls_ProximalL1_g sp (RSp sp) [Some sig; Some lam] [v] [] []) sp sp []
+        (fun d => rlin (qr (1 # 1)) (qr ((-1) # 1)) d (soft (sig * lam) (rlin 1 (-1) d dv)))
+| D_BoxBoth sp lo hi :
+    den ro (Op cls_ProxBox_both sp (RSp sp) [Some lo; Some hi] [] [] []) sp sp []
+        (fun d => map (fun v => Rmin v hi) (map (fun v => Rmax v lo) d))
+| D_BoxLower sp lo hi :
+    den ro (Op cls_ProxBox_lower sp (RSp sp) [Some lo; hi] [] [] []) sp sp [] (fun d => map (fun v => Rmax v lo) d)
+| D_BoxUpper sp lo hi :
+    den ro (Op cls_ProxBox_upper sp (RSp sp) [lo; Some hi] [] [] []) sp sp [] (fun d => map (fun v => Rmin v hi) d)
+| D_BoxNone sp pars :
+    den ro (Op cls_ProxBox_none sp (RSp sp) pars [] [] []) sp sp [] (fun d => d)
 | D_Sum l r dom ran cl_ cr ot od Fl Fr : den ro l dom ran cl_ Fl -> den ro r dom ran cr Fr ->
     NoDup (scr_ids (own_scr ot ran ++ cl_ ++ cr)) ->
     den ro (Op cls_OperatorSum dom (RSp ran) [] [] [ot; od] [l; r]) dom ran (own_scr ot ran ++ cl_ ++ cr)
@@ -220,6 +263,26 @@ Proof.
     apply cls_vec_ok; [reflexivity | reflexivity | apply constant_oop; exact Iv | apply constant_ip; exact Iv].
   - intros sp v dv Iv. cbn [sem map]. split; [reflexivity|].
     apply cls_vec_ok; [reflexivity | reflexivity | apply multiply_oop; exact Iv | apply multiply_ip; exact Iv].
+  - intros sp sig lam Hnz. cbn [sem map]. split; [reflexivity|].
+    apply cls_vec_ok_ip; [reflexivity | reflexivity | apply prox_l2sq_ip; exact Hnz].
+  - intros sp sig lam v dv Hnz Iv. cbn [sem map]. split; [reflexivity|].
+    apply cls_vec_ok_ip; [reflexivity | reflexivity | apply prox_l2sq_g_ip; assumption].
+  - intros sp sig lam Hl Hnz. cbn [sem map]. split; [reflexivity|].
+    apply cls_vec_ok_ip; [reflexivity | reflexivity | apply prox_cc_l2sq_ip; assumption].
+  - intros sp sig lam v dv Hl Hnz Iv. cbn [sem map]. split; [reflexivity|].
+    apply cls_vec_ok_ip; [reflexivity | reflexivity | apply prox_cc_l2sq_g_ip; assumption].
+  - intros sp sig lam Hnz. cbn [sem map]. split; [reflexivity|].
+    apply cls_vec_ok_ip; [reflexivity | reflexivity | apply prox_l1_ip; exact Hnz].
+  - intros sp sig lam v dv Hnz Iv. cbn [sem map]. split; [reflexivity|].
+    apply cls_vec_ok_ip; [reflexivity | reflexivity | apply prox_l1_g_ip; assumption].
+  - intros sp lo hi. cbn [sem map]. split; [reflexivity|].
+    apply cls_vec_ok_ip; [reflexivity | reflexivity | apply box_both_ip].
+  - intros sp lo hi. cbn [sem map]. split; [reflexivity|].
+    apply cls_vec_ok_ip; [reflexivity | reflexivity | apply box_lower_ip].
+  - intros sp lo hi. cbn [sem map]. split; [reflexivity|].
+    apply cls_vec_ok_ip; [reflexivity | reflexivity | apply box_upper_ip].
+  - intros sp pars. cbn [sem map]. split; [reflexivity|].
+    apply cls_vec_ok_ip; [reflexivity | reflexivity | apply box_none_ip].
   - intros l r dom ran cl_ cr ot od Fl Fr Dl [Hdl Hl] Dr [Hdr Hr] ND. cbn [sem map]. split; [reflexivity|].
     apply cls_vec_ok; [reflexivity | reflexivity | eapply sum_oop; eassumption | apply sum_ip; assumption].
   - intros a dom ran c F v dv Da [Hda Ha] Iv. cbn [sem map]. split; [reflexivity|].
